@@ -817,6 +817,16 @@ impl Kanata {
         self.handle_time_ticks(tx)
     }
 
+    /// Verification hook: the inputs of the deferred live reload decision.
+    #[cfg(kanata_verif)]
+    pub fn verif_reload_flags(&self) -> (bool, bool, u16) {
+        (
+            self.live_reload_requested,
+            self.prev_keys.is_empty() && self.cur_keys.is_empty(),
+            self.ticks_since_idle,
+        )
+    }
+
     pub fn tick_ms(&mut self, ms_elapsed: u128, _tx: &Option<Sender<ServerMessage>>) -> Result<()> {
         let mut extra_ticks: u16 = 0;
         for _ in 0..ms_elapsed {
